@@ -49,3 +49,5 @@ pub mod isqrt;
 pub use isqrt::*;
 pub mod batchinv;
 pub use batchinv::*;
+pub mod euler;
+pub use euler::*;
